@@ -14,6 +14,9 @@ fn render(case: &GCase, bnf: &crate::spec::Bnf, ii: usize) -> gen::Rendered {
     let tape = &case.tapes[ii];
     let toks = gen::tokens_for(bnf, tape, 10);
     let mut c = Cursor::new(&tape.tape);
+    if case.layout_mode > 0 {
+        return gen::render_with_layout(&case.spec.terms, &toks, layout_kind_of(case.layout_mode), ii % 3 == 2, &mut c);
+    }
     let style = match ii % 3 {
         _ if case.lines && ii % 2 == 1 => LayoutStyle::Lines,
         0 => LayoutStyle::Unicode,
@@ -21,6 +24,25 @@ fn render(case: &GCase, bnf: &crate::spec::Bnf, ii: usize) -> gen::Rendered {
         _ => LayoutStyle::Minimal,
     };
     gen::render_tokens(&case.spec.terms, &toks, style, &mut c)
+}
+
+/// some node ends before its last child, and that child is an EMPTY node
+fn ends_before_empty_last_child(n: &dynp::Node) -> bool {
+    match n {
+        dynp::Node::Term { .. } => false,
+        dynp::Node::NonTerm { span, children, .. } => {
+            // EMPTY node or a subtree without leaves
+            let here = match children.last() {
+                Some(c @ dynp::Node::NonTerm { span: cs, .. }) => {
+                    let mut l = vec![];
+                    c.leaves(&mut l);
+                    l.is_empty() && cs.end.pos != span.end.pos
+                }
+                _ => false,
+            };
+            here || children.iter().any(ends_before_empty_last_child)
+        }
+    }
 }
 
 impl Prop for C13 {
@@ -69,9 +91,12 @@ impl Prop for C13 {
         json!({"grammar": case.spec.render(), "inputs": inputs})
     }
     fn check(&self, case: &GCase, st: &mut Stats) -> Outcome {
-        let spec = &case.spec;
+        let mut spec_l = case.spec.clone();
+        spec_l.layout = layout_kind_of(case.layout_mode);
+        let spec = &spec_l;
         let bnf = spec.bnf();
         let text = spec.render();
+        st.class(&format!("layout-mode-{}", case.layout_mode));
         let lr_cfg = Cfg::lr();
         let lr = match compile_or_discard(&text, &lr_cfg, st) {
             Ok(d) => {
@@ -135,8 +160,15 @@ impl Prop for C13 {
                 };
                 for t in &trees {
                     if let Err((clause, msg)) = span_invariants(inp, t) {
+                        // structural class of the recorded GLR finding: with a Layout rule the
+                        // span of a node whose last child is EMPTY stops at its last token
+                        let rn_layout = algo == "GLR" && case.layout_mode > 0 && clause == "nonterm-end" && ends_before_empty_last_child(t);
                         return Outcome::fail(
-                            format!("{clause}|{algo}{}", if solutions > 1 { "|ambiguous-forest" } else { "" }),
+                            if rn_layout {
+                                "nonterm-end|GLR|layout-rule|last-child-empty".to_string()
+                            } else {
+                                format!("{clause}|{algo}{}", if solutions > 1 { "|ambiguous-forest" } else { "" })
+                            },
                             format!("grammar:\n{text}\ninput: {inp:?}\n{msg}\ntree: {}", canon_real(d, t, true)),
                         );
                     }
